@@ -52,7 +52,10 @@ Faults == {"unk", "failh", "type", "range", "nofunc", "div0", "silent_unk", "sil
            "eof_unk", "eof_div0", "eof_syn", "eof_arg", "eof_let",
            \* # line comments stand between the tag's opening and the failing statement (or between two statements
            \* of the tag): a line of the tag is named, and it is the SAME line as when the comments are blank lines
-           "cm_unk", "cm_two", "cm_mid", "cm_syn", "cm_emit", "cm_fn", "cm_same"}
+           "cm_unk", "cm_two", "cm_mid", "cm_syn", "cm_emit", "cm_fn", "cm_same",
+           \* the failing statement starts on a LATER line of a silent tag than the tag itself (no comments involved): C15 names the
+           \* line on which the tag begins
+           "late_unk", "late_second"}
 IsCm(f) == f \in {"cm_unk", "cm_two", "cm_mid", "cm_syn", "cm_emit", "cm_fn", "cm_same"}
 IsSyntax(f) == f \in {"eof_arg", "eof_let", "syn_operand", "syn_let", "syn_paren", "syn_overflow", "syn_call", "syn_for", "eof_syn", "syn_cascade", "cm_syn"}
 IsEof(f) == f \in {"eof_unk", "eof_div0", "eof_syn", "eof_arg", "eof_let"}
@@ -83,6 +86,8 @@ Fault(f) ==
     [] f = "ml_strfirst"  -> RawTag(<<"<%", " ", "QUOT", "a", "NL", "b", "QUOT", " ", "+", " ", "nope", " ", "%>">>)
     [] f = "syn_cascade"  -> RawTag(<<"<%", " ", "if", " ", "(", "x", " ", "==", " ", ")", " ", "{", " ", "%>", "NL", "a", "NL", "NL", "NL",
                                      "<%", " ", "}", " ", "else", " ", "{", " ", "%>", "b", "<%", " ", "}", " ", "%>">>)
+    [] f = "late_unk"     -> RawTag(<<"<%", "NL", " ", "nope", " ", "+", " ", "1", " ", "%>">>)
+    [] f = "late_second"  -> RawTag(<<"<%", " ", "let", " ", "l", " ", "=", " ", "1", "NL", "l", " ", "/", " ", "0", " ", "%>">>)
     [] f = "cm_unk"       -> RawTag(<<"<%", "NL", "HASH", " ", "c", "NL", "nope", " ", "+", " ", "1", " ", "%>">>)
     [] f = "cm_two"       -> RawTag(<<"<%", " ", "HASH", "c", "NL", " ", "HASH", " ", "d", " ", "e", "NL", "let", " ", "l", " ", "=", " ", "nope", " ", "%>">>)
     [] f = "cm_mid"       -> RawTag(<<"<%", " ", "let", " ", "l", " ", "=", " ", "1", "NL", "HASH", " ", "c", "NL", "l", " ", "/", " ", "0", " ", "%>">>)
